@@ -1,19 +1,21 @@
-(** C01 — POP state depends only on the applied chain, not on history. Closed, instantiated machine.
+(** C01 — POP state depends only on the active chain, not on history. Closed, instantiated machine.
 
-    PROVED:
-      * C01_applied_canonical, for EVERY reachable state (all trees, payload assignments, failing positions, scorers,
-        histories incl. comparisons): P = bootstrap state + exactly the effects of the blocks flagged applied, as a
-        multiset (reference counts and endorsement multiset) - nothing of an abandoned or rolled-back fork is left;
-      * C01_history_independence: two histories of connectBlock / setState calls (any order of bodies, any forks
-        activated and abandoned, any failing switches, back and forth) that end with the same active chain - the same
-        payloads on root..tip - end with the same reference count for every SP block and the same endorsements; the
-        fresh instance shown only the final chain is one such history.
-    GAP (hence _partial): for histories that also contain comparePopScore the statement is proved relative to the set
-      of blocks flagged applied (C01_history_independence_partial), not yet relative to the active chain (needs the
-      quiet invariant through comparePopScore, see Properties_C02.v). Verdict and payout equality are checked on the
-      implementation by the twin oracle, not proved (scoring is property C03). *)
+    PROVED, for every state reachable by ANY history of connectBlock / setState / comparePopScore calls (any tree, any
+    order of bodies, any payload assignment, any failing position, any scorer, forks activated, compared and abandoned,
+    back and forth):
+      * C01_applied_canonical: P = bootstrap state + exactly the effects of the blocks flagged applied, as a multiset
+        (reference counts and endorsement multiset) - nothing of an abandoned or rolled-back fork is left;
+      * C01_applied_exactly: the blocks flagged applied are exactly root..tip;
+      * C01_history_independence_partial: two histories ending with the same active chain - the same payloads on
+        root..tip - end with the same reference count for every SP block and the same endorsement multiset. The fresh
+        instance that is only shown the final chain is one such history.
+    GAP (why _partial; full statement of the property): additionally the same POP payouts and the same comparePopScore
+      verdict against any candidate. Payouts and the score comparison are functions of (P, active chain) outside this
+      model (properties C14 / C03); their equality is checked on the implementation by the twin oracle (instance with a
+      history vs fresh instance shown only the active chain: POP projection of the ALT/VBK/BTC views, getPopPayout,
+      comparePopScore against several shown candidates and the state after it). *)
 From Coq Require Import List ZArith NArith Bool Permutation.
-From VB Require Import Pop.SmDefs Pop.SmProofs Pop.SmWf.
+From VB Require Import Pop.SmDefs Pop.SmProofs Pop.SmWf Pop.SmCmp.
 
 Theorem C01_cmd_unexec_exec :
   forall c p p', cexec c p = Some p' -> cunexec c p' = p.
@@ -26,28 +28,31 @@ Theorem C01_applied_canonical :
 Proof. exact applied_canonical. Qed.
 Print Assumptions C01_applied_canonical.
 
-Theorem C01_history_independence_partial :
-  forall base s1 s2,
-    reachable base s1 -> reachable base s2 ->
-    Permutation (active_items (blocks _ _ s1)) (active_items (blocks _ _ s2)) ->
-    Permutation (pst _ _ s1) (pst _ _ s2) /\ (forall x, count_ref x (pst _ _ s1) = count_ref x (pst _ _ s2)).
-Proof. exact history_independence_applied. Qed.
-Print Assumptions C01_history_independence_partial.
-
-Theorem C01_nonvacuous : exists s, reachable ex_base s /\ tip _ _ s = 6%N.
-Proof. exact ex_reachable. Qed.
-Print Assumptions C01_nonvacuous.
+Theorem C01_applied_exactly :
+  forall base s, reachable base s -> quiet s /\ forall j, is_act (cores s) j <-> In j (chain s).
+Proof. exact reachable_quiet. Qed.
+Print Assumptions C01_applied_exactly.
 
 Theorem C01_active_items_chain :
   forall s, quiet s -> Permutation (active_items (blocks _ _ s)) (flat_map block_items (chain_gs s)).
 Proof. exact active_items_chain. Qed.
 Print Assumptions C01_active_items_chain.
 
-Theorem C01_history_independence :
-  forall base r1 h1 ops1 s1 r2 h2 ops2 s2,
-    no_compare ops1 -> no_compare ops2 ->
-    run (c_init r1 h1 base) ops1 = Ok s1 -> run (c_init r2 h2 base) ops2 = Ok s2 ->
-    chain_gs s1 = chain_gs s2 ->
+Theorem C01_history_independence_applied :
+  forall base s1 s2,
+    reachable base s1 -> reachable base s2 ->
+    Permutation (active_items (blocks _ _ s1)) (active_items (blocks _ _ s2)) ->
     Permutation (pst _ _ s1) (pst _ _ s2) /\ (forall x, count_ref x (pst _ _ s1) = count_ref x (pst _ _ s2)).
-Proof. exact history_independence_chain. Qed.
-Print Assumptions C01_history_independence.
+Proof. exact history_independence_applied. Qed.
+Print Assumptions C01_history_independence_applied.
+
+Theorem C01_history_independence_partial :
+  forall base s1 s2,
+    reachable base s1 -> reachable base s2 -> chain_gs s1 = chain_gs s2 ->
+    Permutation (pst _ _ s1) (pst _ _ s2) /\ (forall x, count_ref x (pst _ _ s1) = count_ref x (pst _ _ s2)).
+Proof. exact history_independence. Qed.
+Print Assumptions C01_history_independence_partial.
+
+Theorem C01_nonvacuous : exists s, reachable ex_base s /\ tip _ _ s = 6%N.
+Proof. exact ex_reachable. Qed.
+Print Assumptions C01_nonvacuous.
